@@ -53,7 +53,7 @@ URLS_QUICK = ['info', 'menu', 'shutdown', 'config', 'unknown', 'info?x=1', 'INFO
 # abs: absolute-form request target naming this Squid (http://squid.verif:<port>/...); absuc: the same with the host in upper
 # case; absftp: the same with scheme ftp (the manager ACL is a regular expression over the URL, the dispatch to the cache
 # manager goes by host, port and path prefix: both must agree)
-URLS_THOROUGH = URLS_QUICK + ['abs:shutdown']
+URLS_THOROUGH = URLS_QUICK
 QUICK_POOL = 4
 CREDS = ['none', 'basic-secret', 'basic-other', 'basic-wrong', 'basic-prefix', 'basic-emptyuser-secret', 'basic-nocolon-secret',
          'userinfo-secret']
@@ -184,7 +184,7 @@ def req_key(r):
 def config_space(tier):
     pool = PASSWD_POOL[:QUICK_POOL] if tier == 'quick' else PASSWD_POOL
     lists = [[]] + [[a] for a in pool] + [[a, b] for a in pool for b in pool if a is not b]
-    space = [(l, h) for l in lists for h in ('H1', 'H2', 'H3')]
+    space = [(l, h) for l in lists for h in (('H1', 'H2') if tier == 'quick' else ('H1', 'H2', 'H3'))]
     # scheduling only: shards get the configurations round-robin, and every performed shutdown costs an instance restart, so
     # order the list by an upper estimate of that cost to balance the shards
     reqs = requests_of(tier)
@@ -452,18 +452,25 @@ def make_worker(ctx):
     def worker(shard, items):
         res = {'configs': 0, 'evaluations': 0, 'nontrivial': 0, 'classes': {}, 'violations': [], 'crashes': [], 'deadline_hit': False,
                'starts': 0, 'reconfigs': 0, 'kicks': 0, 'samples': [], 'det_checked': 0, 'performed_by_action': {},
-               'shutdowns': 0, 'refused_401': 0, 'refused_403': 0}
+               'shutdowns': 0, 'refused_401': 0, 'refused_403': 0, 'watchdog_retries': 0}
         det = {}
         if items:
             i = len(items) // 2
-            w0 = MWorld(ctx, shard, name='d%d' % shard)
-            try:
-                w0.start(items[i])
-                det[i] = eval_config(w0, items[i], REQUESTS)[0]
-            finally:
-                w0.stop()
-                res['starts'] += w0.starts
-                res['kicks'] += w0.kicks
+            for attempt in range(2):
+                w0 = MWorld(ctx, shard, name='d%d' % shard)
+                try:
+                    w0.start(items[i])
+                    det[i] = eval_config(w0, items[i], REQUESTS)[0]
+                    break
+                except HarnessError as e:
+                    # the engine's real-time watchdog can expire on an overloaded machine: retry once on a fresh instance
+                    if attempt or 'watchdog' not in str(e):
+                        raise
+                    res['watchdog_retries'] += 1
+                finally:
+                    w0.stop()
+                    res['starts'] += w0.starts
+                    res['kicks'] += w0.kicks
         w = MWorld(ctx, shard)
         try:
             since = 0
@@ -471,13 +478,25 @@ def make_worker(ctx):
                 if time.time() > t_end:
                     res['deadline_hit'] = True
                     break
-                if w.sq is None or since >= RESTART_EVERY or w.cfg is None:
-                    w.start(cfg)
-                    since = 0
-                else:
-                    w.reconfigure(cfg)
-                since += 1
-                tr, bad, classes, probs = eval_config(w, cfg, REQUESTS)
+                for attempt in range(2):
+                    try:
+                        if w.sq is None or since >= RESTART_EVERY or w.cfg is None:
+                            w.start(cfg)
+                            since = 0
+                        else:
+                            w.reconfigure(cfg)
+                        since += 1
+                        tr, bad, classes, probs = eval_config(w, cfg, REQUESTS)
+                        break
+                    except HarnessError as e:
+                        if attempt or 'watchdog' not in str(e):
+                            raise
+                        res['watchdog_retries'] += 1
+                        res['starts'] += w.starts
+                        res['reconfigs'] += w.reconfigs
+                        w.stop()
+                        res['kicks'] += w.kicks
+                        w = MWorld(ctx, shard)
                 res['configs'] += 1
                 res['evaluations'] += len(REQUESTS)
                 if n in det:
@@ -548,7 +567,8 @@ def run(ctx):
     assert ref_access('H1', {'src': '127.0.0.1'}, 'http://squid.verif:1/squid-internal-mgr/info') is True
     assert ref_access('H3', {'src': '127.0.0.2'}, 'http://squid.verif:1/squid-internal-mgr/info') is True
     space = config_space(ctx.tier)
-    parts = [p for p in ls.run_sharded(ctx, make_worker(ctx), space) if p]
+    # quick: 8 shards (every shard costs two instance starts before its first configuration)
+    parts = [p for p in ls.run_sharded(ctx, make_worker(ctx), space, nshards=(min(8, ctx.ncpu) if ctx.quick else None)) if p]
     tot = lambda k: sum(p[k] for p in parts)
     classes, perf = {}, {}
     for p in parts:
@@ -577,11 +597,12 @@ def run(ctx):
     cov = {'evaluations': tot('evaluations'), 'distinct_nontrivial': tot('nontrivial'), 'rule': RULE, 'samples': samples[:6],
            'exhaustive': (not deadline_hit) and configs == len(space), 'configurations': configs, 'configurations_total': len(space),
            'requests_per_configuration': len(requests_of(ctx.tier)),
-           'subspace': 'all lists of <= 2 distinct cachemgr_passwd lines (ordered) from a pool of %d x 3 http_access sections x %d URL forms x %d '
-                       'credential forms x 2 client addresses' % (QUICK_POOL if ctx.quick else len(PASSWD_POOL), len(URLS_QUICK if ctx.quick else URLS_THOROUGH), len(CREDS)),
+           'subspace': 'all lists of <= 2 distinct cachemgr_passwd lines (ordered) from a pool of %d x %d http_access sections x %d URL forms x %d '
+                       'credential forms x 2 client addresses' % (QUICK_POOL if ctx.quick else len(PASSWD_POOL), 2 if ctx.quick else 3, len(URLS_QUICK if ctx.quick else URLS_THOROUGH), len(CREDS)),
            'outcome_classes': classes, 'reports_delivered': perf, 'shutdowns_performed': tot('shutdowns'),
            'refused_401': tot('refused_401'), 'refused_403': tot('refused_403'), 'instance_starts': tot('starts'),
-           'reconfigurations': tot('reconfigs'), 'start_vs_reconfigure_crosschecks': tot('det_checked'), 'kicks': tot('kicks')}
+           'reconfigurations': tot('reconfigs'), 'start_vs_reconfigure_crosschecks': tot('det_checked'), 'kicks': tot('kicks'),
+           'watchdog_retries': tot('watchdog_retries')}
     return Result(LEVEL, cov, vio, ASSUME)
 
 
